@@ -2,4 +2,3 @@ SPECIFICATION Spec
 CONSTANTS N = 5
           Buggy = TRUE
 INVARIANT AbsInv
-PROPERTY Refines
